@@ -71,7 +71,7 @@ def elementwise_grad(fun, argnum=0, *nary_op_args, **nary_op_kwargs):
                 or not isinstance(x, ak.layout.Content)
                 for x in inputs
             ):
-                return lambda: (ak.layout.NumpyArray(gradfun(*inputs)),)
+                return lambda: (ak.layout.NumpyArray(gradfun(*inputs, **kwargs)),)
             else:
                 return None
 
